@@ -15,7 +15,7 @@ def family(seed, n_scn, users_per):
         users = [s.key("A%d" % i, "rcde" if rnd.random() < 0.2 else "ed") for i in range(1, users_per + 1)]
         sink = s.key("Z1")
         scale = rnd.choice([1, 7, 10**4, 10**8, 3 * 10**9])
-        h = scen.live_preamble(s, users, fund_peg=rnd.choice([1000, 5 * 10**5, 20000 * 10**8]) * 1)
+        h = scen.live_preamble(s, users, fund_peg=rnd.choice([1000, 5 * 10**5, 1000 * 10**8, 1200 * 10**8]))
         # every user converts part of the PEG into pUSD and pXBT (executes at the next rated block)
         for u in users:
             b = s.B(u, "PEG")
